@@ -69,6 +69,7 @@ type c17Result struct {
 	LockProbes       int      `json:"lock_probes"`
 	HeldProbes       int      `json:"held_probes"`
 	BadOpens         int      `json:"bad_opens"`
+	ChurnRounds      int      `json:"churn_rounds"`
 	Done             bool     `json:"done"`
 }
 
@@ -308,6 +309,72 @@ func workerC17(args []string) int {
 				if k := keysLive(); k > res.MaxKeysLive {
 					res.MaxKeysLive = k
 				}
+			case "churn":
+				// several goroutines open their own handle on the same data source, query and close, a few times each:
+				// the last Close of one goroutine races with the Open of another
+				f := spec.Files[op.File]
+				var wg sync.WaitGroup
+				var mu sync.Mutex
+				gate := make(chan struct{})
+				for g := 0; g < op.N; g++ {
+					wg.Add(1)
+					go func(g int) {
+						defer wg.Done()
+						<-gate
+						for it := 0; it < 6; it++ {
+							qi := (op.Q + g + it) % len(f.Queries)
+							q, e := f.Queries[qi], exps[op.File][qi]
+							var v string
+							p, msg, _ := vf.Try(func() {
+								db, err := sql.Open("updog", "file:"+f.Path+op.Opts)
+								if err != nil {
+									v = "sql.Open: " + err.Error()
+									return
+								}
+								defer db.Close()
+								rows, err := db.Query(q.Text)
+								switch {
+								case e.want.Err:
+									if err == nil {
+										rows.Close()
+										v = fmt.Sprintf("query %q must be rejected", q.Text)
+									}
+								case err != nil:
+									v = fmt.Sprintf("open/query/close churn: query %q failed: %v", q.Text, err)
+								default:
+									got, rerr := readRows(rows)
+									if rerr != nil {
+										v = rerr.Error()
+									} else if d := compareTables(got, expectedTable(e.want, e.gb)); d != "" {
+										v = fmt.Sprintf("open/query/close churn: query %q: %s", q.Text, d)
+									}
+								}
+							})
+							if p {
+								v = "open/query/close churn panicked: " + msg
+							}
+							mu.Lock()
+							res.Queries++
+							if v != "" && len(res.Violations) < 5 {
+								res.Violations = append(res.Violations, v)
+							}
+							mu.Unlock()
+							if p {
+								return
+							}
+						}
+					}(g)
+				}
+				close(gate)
+				wg.Wait()
+				res.ChurnRounds++
+				if len(res.Violations) == 0 && liveUsed(op.File) == 0 {
+					free, perr := lockFreeSoon(f.Path)
+					res.LockProbes++
+					if perr != nil || !free {
+						add("op %d: after the open/query/close churn on file %d the file is still locked", oi, op.File)
+					}
+				}
 			case "close":
 				hd := handles[op.H]
 				if hd == nil || hd.closed {
@@ -390,7 +457,28 @@ func c17GenHistory(rng *rand.Rand, id string, nfiles, nq int) c17History {
 		h.Ops = append(h.Ops, c17Op{Op: op, H: hd, Q: rng.Intn(nq)})
 	}
 	closeH := func(hd int) { h.Ops = append(h.Ops, c17Op{Op: "close", H: hd}) }
-	switch rng.Intn(6) {
+	switch rng.Intn(8) {
+	case 6: // open/query/close churn by several goroutines on one data source, possibly next to a live handle
+		f := rng.Intn(nfiles)
+		o := c17OptStrings[rng.Intn(len(c17OptStrings))]
+		if rng.Intn(2) == 0 {
+			hd := open(f, o)
+			q(hd)
+			h.Ops = append(h.Ops, c17Op{Op: "churn", File: f, Opts: o, N: 2 + rng.Intn(7), Q: rng.Intn(nq)})
+			q(hd)
+			closeH(hd)
+		} else {
+			h.Ops = append(h.Ops, c17Op{Op: "churn", File: f, Opts: o, N: 2 + rng.Intn(15), Q: rng.Intn(nq)})
+		}
+	case 7: // no idle connections + concurrent queries: the driver connection is closed and reopened all the time
+		f := rng.Intn(nfiles)
+		hd := open(f, c17OptStrings[rng.Intn(len(c17OptStrings))])
+		h.Ops = append(h.Ops, c17Op{Op: "idle0", H: hd}, c17Op{Op: "pool", H: hd, N: 0})
+		h.Ops = h.Ops[:len(h.Ops)-1]
+		for k := 0; k < 3; k++ {
+			h.Ops = append(h.Ops, c17Op{Op: "burst", H: hd, Q: rng.Intn(nq), N: 4 + rng.Intn(13)})
+		}
+		closeH(hd)
 	case 0: // close-all-then-reopen, several times
 		f := rng.Intn(nfiles)
 		o := c17OptStrings[rng.Intn(len(c17OptStrings))]
@@ -583,6 +671,7 @@ func runC17(r *vf.Run) {
 				r.Count("lock_probes", int64(hr.LockProbes))
 				r.Count("lock_probe_saw_held_file", int64(hr.HeldProbes))
 				r.Count("unopenable_data_sources_tried", int64(hr.BadOpens))
+				r.Count("open_query_close_churn_rounds", int64(hr.ChurnRounds))
 				r.Max("distinct_file_option_keys_live_at_once", int64(hr.MaxKeysLive))
 				for _, v := range hr.Violations {
 					var hist c17History
